@@ -159,10 +159,11 @@ def inspect_report(path, keep=False):
 class World:
     """A directory tree on tmpfs that simulated runs execute in (durable state of a history)."""
 
-    def __init__(self, tag):
+    def __init__(self, tag, cwd_shape=None):
         self.root = os.path.join(scratch_base(), "%s-%d-%s" % (tag, os.getpid(), hashlib.sha1(os.urandom(8)).hexdigest()[:8]))
         self.world = os.path.join(self.root, "world")
-        self.work = os.path.join(self.world, "work")
+        # the cwd of the runs; "under_log" / "under_output": a working directory one of whose ancestors is itself called log / output
+        self.work = os.path.join(self.world, {"under_log": "log/taxes 2023", "under_output": "output/work"}.get(cwd_shape, "work"))
         self.home = os.path.join(self.world, "home")
         self.tmp = os.path.join(self.world, "tmp")
         for d in (self.work, self.home, self.tmp):
@@ -426,7 +427,7 @@ def run(w, world_files, opts, host=None, faults=None, crash_at=None, interrupt_a
     logs = {}
     log_root = os.path.join(w.work, "log")
     for rel, meta in after.items():
-        if meta[0] == "f" and rel.startswith(os.path.join("work", "log") + os.sep) and before.get(rel) != meta:
+        if meta[0] == "f" and rel.startswith(os.path.relpath(os.path.join(w.work, "log"), w.world) + os.sep) and before.get(rel) != meta:
             try:
                 with open(os.path.join(w.world, rel), encoding="utf-8", errors="replace") as fh:
                     logs[os.path.basename(rel)] = fh.read()
@@ -480,7 +481,7 @@ def digest(res, w):
     after = {}
     for rel, meta in res["after"].items():
         m = list(meta)
-        if m[0] == "f" and rel.startswith(os.path.join("work", "log") + os.sep):
+        if m[0] == "f" and rel.startswith(os.path.relpath(os.path.join(w.work, "log"), w.world) + os.sep):
             try:
                 with open(os.path.join(w.world, rel), "rb") as fh:
                     data = fh.read().replace(root.encode(), b"$R")
